@@ -205,7 +205,7 @@ func copyToSelectedData[T any](remoteWrite bool, existingData []T, filterData *F
 				continue
 			}
 
-			CopyNonNilDataFromItemToItem(newData, &existingData[i])
+			copyNonNilDataFromItemToItem(remoteWrite, newData, &existingData[i])
 			break
 		}
 	}
@@ -231,7 +231,7 @@ func copyToAllData[T any](remoteWrite bool, existingData []T, newData *T) ([]T, 
 			continue
 		}
 
-		CopyNonNilDataFromItemToItem(newData, &existingData[i])
+		copyNonNilDataFromItemToItem(remoteWrite, newData, &existingData[i])
 	}
 
 	return existingData, success
@@ -269,7 +269,7 @@ func deleteFilteredData[T any](remoteWrite bool, existingData []T, filterData *F
 
 			// remove the fields defined in element if the item matches
 			if filterData.SelectorMatch(util.Ptr(existingData[i])) {
-				RemoveElementFromItem(&existingData[i], filterData.Elements)
+				removeElementFromItem(remoteWrite, &existingData[i], filterData.Elements)
 				result = append(result, existingData[i])
 			} else {
 				result = append(result, existingData[i])
@@ -285,7 +285,7 @@ func deleteFilteredData[T any](remoteWrite bool, existingData []T, filterData *F
 			// only elements filter
 
 			// remove the fields defined in element
-			RemoveElementFromItem(&existingData[i], filterData.Elements)
+			removeElementFromItem(remoteWrite, &existingData[i], filterData.Elements)
 			result = append(result, existingData[i])
 		}
 	}
@@ -332,7 +332,16 @@ func isStringValueInSlice(value string, list []string) bool {
 }
 
 func RemoveElementFromItem[T any, E any](item *T, element E) {
+	removeElementFromItem(false, item, element)
+}
+
+// a remote write may not remove the "writecheck" tagged field
+func removeElementFromItem[T any, E any](remoteWrite bool, item *T, element E) {
 	fieldNamesToBeRemoved := nonNilElementNames(element)
+	var writeCheckFields []string
+	if remoteWrite {
+		writeCheckFields = fieldNamesWithEEBusTag(EEBusTagWriteCheck, *item)
+	}
 
 	eV := reflect.ValueOf(element).Elem()
 	eT := reflect.TypeOf(element).Elem()
@@ -345,7 +354,8 @@ func RemoveElementFromItem[T any, E any](item *T, element E) {
 
 	for i := 0; i < eV.NumField(); i++ {
 		fieldName := eT.Field(i).Name
-		if isStringValueInSlice(fieldName, fieldNamesToBeRemoved) {
+		if isStringValueInSlice(fieldName, fieldNamesToBeRemoved) &&
+			!isStringValueInSlice(fieldName, writeCheckFields) {
 			f := iV.FieldByName(fieldName)
 			if !f.IsValid() {
 				continue
@@ -360,8 +370,18 @@ func RemoveElementFromItem[T any, E any](item *T, element E) {
 }
 
 func CopyNonNilDataFromItemToItem[T any](source *T, destination *T) {
+	copyNonNilDataFromItemToItem(false, source, destination)
+}
+
+// a remote write may not change the "writecheck" tagged field
+func copyNonNilDataFromItemToItem[T any](remoteWrite bool, source *T, destination *T) {
 	if source == nil || destination == nil {
 		return
+	}
+
+	var writeCheckFields []string
+	if remoteWrite {
+		writeCheckFields = fieldNamesWithEEBusTag(EEBusTagWriteCheck, *destination)
 	}
 
 	sV := reflect.ValueOf(source).Elem()
@@ -380,6 +400,10 @@ func CopyNonNilDataFromItemToItem[T any](source *T, destination *T) {
 		}
 
 		fieldName := sT.Field(i).Name
+		if isStringValueInSlice(fieldName, writeCheckFields) {
+			continue
+		}
+
 		f := dV.FieldByName(fieldName)
 
 		if !f.IsValid() {
